@@ -1,5 +1,143 @@
-(* C04 - under construction: statements arrive with Proofs/DaemonProofs.v *)
-From Coq Require Import List NArith ZArith Bool.
-From PM Require Import Base.Bytes Base.Outcome Gen.GenConsts Model.Client Model.Device Model.Daemon.
-Example C04_take_line : take_line [] (bslit "ab" ++ [LF] ++ bslit "c") = Some (bslit "ab" ++ [LF], bslit "c").
-Proof. vm_compute. reflexivity. Qed.
+(* C04 -- every request gets exactly one final answer, in bounded time.
+   Theorems over Model/Daemon.v (the whole daemon as a transducer per pass of _select_loop, tied to the real powermand by the
+   per-pass replay R-SIM), Model/Client.v (single client stream) and Model/Device.v (timers).  Quantification: every
+   configuration of coprocess devices satisfying the parser's guarantees (cfg_ok), every list of rounds (= every interleaving
+   of client connections, input bytes, closes, device bytes, faults, connect outcomes and clock steps), every oracle. *)
+From Coq Require Import List NArith ZArith Bool Permutation.
+From PM Require Import Base.Bytes Base.Outcome Gen.GenConsts Model.ScriptAst Model.Enqueue Model.Script Model.Device Model.DevHarness
+                       Model.Client Model.CliWorld Model.Daemon Spec.Proto
+                       Proofs.ClientProto Proofs.ClientStream Proofs.DeviceInv Proofs.DeviceRun Proofs.DeviceTimer Proofs.DaemonLedger Proofs.DaemonPending.
+From PM Require Properties.C07.
+Import ListNotations.
+Local Open Scope Z_scope.
+
+Section C04.
+  Variable expand_str : text -> option (list text).
+  Variable ranged_sorted : list text -> text.
+  Variable ranged_plain : list text -> text.
+  Variable sorted : list text -> list text.
+  Variable rmatch : text -> text -> option pmatch.
+  Variable compress : list text -> text.
+  Variable short_circuit : bool.
+
+  (* The cross-layer invariant, from start-up, over EVERY history of passes (coprocess devices; no telnet option replies):
+       - the pass function never returns Exit / Abort / MemErr: in particular _act_finish always finds the command it
+         completes (assert(c->cmd != NULL) is unreachable) and no device-layer assert fires;
+       - for every live client:  pending = number of its actions still queued on the devices   (no completion is lost,
+         none is delivered twice, none reaches another client: ids are unique);
+       - for every live client the output produced so far parses as protocol tokens with
+             #terminal replies + (1 if a command is in progress) = #lines handed to _parse_input
+         i.e. exactly one terminal (1xx/2xx) reply per request line, the outstanding one being the command in progress;
+       - every time-out handed to poll is strictly positive (no zero-time-out spin requested by the device layer). *)
+  Theorem C04_daemon_invariant : forall st now plans rs,
+    boot compress st -> all_pipe st -> rounds_plain rs -> Z.of_nat (length rs) < INT_MAX - 1 ->
+    exists st1 o, dinit st now plans = Ok (st1, o) /\
+      match drun expand_str ranged_sorted ranged_plain sorted rmatch compress short_circuit st1 rs [] with
+      | Ok (st', outs) =>
+          Forall (fun x => cli_ok x /\ pend (dc x) = cnt (cid x) (qall (dm_devs st'))) (dm_clients st') /\
+          NoDup (ids st') /\ Forall (DInvR compress) (dm_devs st') /\
+          Forall (fun o => forall t, do_tmo o = Some t -> 0 < t) outs
+      | Hang _ => True
+      | _ => False
+      end.
+  Proof. exact (daemon_invariant expand_str ranged_sorted ranged_plain sorted rmatch compress short_circuit). Qed.
+
+  (* one pass re-establishes the invariant (the induction step, usable from any state that satisfies it) *)
+  Theorem C04_pass_invariant : forall st r, DPInv compress st -> all_pipe st -> pins_plain (r_dev r) -> 1 <= dm_seq st < INT_MAX ->
+    match dstep expand_str ranged_sorted ranged_plain sorted rmatch compress short_circuit st r with
+    | Ok (st', o) => DPInv compress st' /\ all_pipe st' /\ (forall t, do_tmo o = Some t -> 0 < t) /\ length (dm_devs st') = length (dm_devs st) /\
+                     dm_seq st <= dm_seq st' <= dm_seq st + 1
+    | Hang _ => True
+    | _ => False
+    end.
+  Proof. exact (dstep_inv expand_str ranged_sorted ranged_plain sorted rmatch compress short_circuit). Qed.
+
+  (* a single client in isolation: any sequence of lines, completions, telemetry and diagnostics in which callbacks only
+     arrive while a command is in progress (what C04_daemon_invariant establishes for the whole daemon) yields a stream
+     accepted by the protocol recogniser, with one terminal reply per line *)
+  Theorem C04_client_stream : forall cf id version evs,
+    let s0 := mkCstate cf [] (new_client id version) in
+    events_ok expand_str ranged_sorted ranged_plain sorted s0 evs = true ->
+    exists s' toks st,
+      run1 expand_str ranged_sorted ranged_plain sorted s0 evs = Ok s'
+      /\ cl_out (s_cl s') = render toks /\ run PStart toks = Some st
+      /\ (busy (s_cl s') = false -> at_rest st = true)
+      /\ (terminals toks + b2n (busy (s_cl s')) = lines_of evs)%nat.
+  Proof.
+    intros cf id version evs s0 H. destruct (client_stream expand_str ranged_sorted ranged_plain sorted cf id version evs H) as (s' & toks & st & A & B & C & D & E & _).
+    exists s', toks, st. auto.
+  Qed.
+
+  (* the device layer's timers, per pass of the device world (Model/DevHarness.v): every device whose queue is not empty has
+     asked for a time-out t with 0 < t <= (deadline of its head action) - now, unless the head is the not yet started login
+     with no client action behind it: no request waits without a timer *)
+  Theorem C04_no_timerless_wait : forall h, HInv compress h ->
+    match hstep rmatch compress short_circuit h HPass with
+    | Ok (h', o) =>
+        tmo_pos (o_tmo o) /\ h_now h' = h_now h /\
+        forall k d p, nth_error (h_devs h) k = Some (d, p) ->
+          exists d', nth_error (h_devs h') k = Some (d', apply_evs p (evs_of k (o_evs o))) /\
+                     dev_pass_ok compress (h_now h) d d' (evs_of k (o_evs o)) (o_tmo o)
+    | Hang _ => True
+    | _ => False
+    end.
+  Proof. exact (hpass_ok rmatch compress short_circuit). Qed.
+End C04.
+
+(* the deadline of an action never moves once it is stamped: not by a rewind (re-login), not by advancing *)
+Theorem C04_deadline_fixed : forall a, a_stamp (rewind_action a) = a_stamp a /\ a_stamp (advance a) = a_stamp a.
+Proof. intros a. split; [apply stamp_kept_by_rewind|apply stamp_kept_by_advance]. Qed.
+
+(* ---------------- non-vacuity: a daemon with one coprocess device; a client connects, sends `on n1`, the device stays
+   silent, the action times out: exactly one terminal reply (210) and the invariant's hypotheses hold ---------------- *)
+Definition ex_st : daemon :=
+  mkDaemon [bslit "n1"] [] [bslit "spec"] [true] [C07.ex_dev] [] 1 [] (bslit "2.4") [Telnet.telnet_init].
+Example C04_boot_example : boot C07.ex_compress ex_st /\ all_pipe ex_st.
+Proof.
+  split.
+  - split; [reflexivity|]. split; [reflexivity|]. constructor; [|constructor].
+    destruct (mk_device_inv C07.ex_compress (bslit "d0") [mkPlug (bslit "p1") (Some (bslit "n1"))]
+               [(PM_LOG_IN, [Send (bslit "login\n"); Expect (bslit "ok")]); (PM_POWER_ON, [Send (bslit "on %s\n"); Expect (bslit "done")])] 5000000 0
+               C07.C07_cfg_ok_example) as [H1 H2].
+    split; [exact H1|]. split; [exact H2|reflexivity].
+  - intros [|[|i]]; reflexivity.
+Qed.
+Definition ex_expand (t : text) : option (list text) := Some [t].
+Definition ex_join (l : list text) : text := concat l.
+Definition ex_rounds : list round :=
+  [ mkRound 1000000 true [] [];
+    mkRound 1100000 false [mkCin false true false (Some (bslit "on n1" ++ [LF])) None true] [];
+    mkRound 1200000 false [] [];
+    mkRound 7000000 false [] [] ].
+Example C04_run_example :
+  match dinit ex_st 1000000 [[ConnNow; ConnNow; ConnNow]] with
+  | Ok (st1, _) =>
+    match drun ex_expand ex_join ex_join (fun l => l) C07.ex_rmatch C07.ex_compress false st1 ex_rounds [] with
+    | Ok (st', outs) =>
+        rounds_plain ex_rounds /\
+        match dm_clients st' with
+        | [x] => busy (dc x) = false /\ dc_lines x = 1%nat /\
+                 (let tail := CP_ERR_COM_COMPLETE ++ CP_PROMPT in
+                  skipn (length (cl_out (dc x)) - length tail) (cl_out (dc x)) = tail)
+        | _ => False
+        end
+    | _ => False
+    end
+  | _ => False
+  end.
+Proof. vm_compute. split; [repeat constructor|]. split; [reflexivity|]. split; reflexivity. Qed.
+
+Print Assumptions C04_daemon_invariant.
+Print Assumptions C04_pass_invariant.
+Print Assumptions C04_client_stream.
+Print Assumptions C04_no_timerless_wait.
+Print Assumptions C04_deadline_fixed.
+
+(* OPEN (DESIGN §5 C04):
+   C04_progress  "pending c > 0 at time t  ->  pending c = 0 at some t' <= t + bound" (bounded time) is not proved: it needs a
+   liveness argument over the script semantics (C04_no_timerless_wait + C12_timeout_fails_queue give the ingredients: a
+   positive time-out no later than the head deadline is always requested, and the pass that finds the deadline passed
+   completes the whole queue).  The daemon-level invariant is proved for coprocess transports; for tcp devices the telnet
+   option replies queued into dev->to by the preprocess step fall outside the device-layer invariant (inv_to), so those
+   histories are covered by the per-pass R-SIM replay only.  Fuel exhaustion (Hang) of the statement interpreter is not
+   excluded by a theorem. *)
